@@ -4426,8 +4426,15 @@ func (r *RoutingPolicy) AddDefinedSet(s DefinedSet, replace bool) error {
 	if m, ok := r.definedSetMap[s.Type()]; !ok {
 		return fmt.Errorf("invalid defined-set type: %d", s.Type())
 	} else {
-		if d, ok := m[s.Name()]; ok && !replace {
-			if err := d.Append(s); err != nil {
+		if d, ok := m[s.Name()]; ok {
+			// the conditions of the configured statements hold the set
+			// object itself: change it in place (replacing the map entry
+			// would leave them with the old content)
+			if replace {
+				if err := d.Replace(s); err != nil {
+					return err
+				}
+			} else if err := d.Append(s); err != nil {
 				return err
 			}
 		} else {
